@@ -267,6 +267,7 @@ func (p *InlineParser) Rewrite(root *RootBlock) {
 	for len(stack) > 0 {
 		curr := stack[len(stack)-1]
 		stack = stack[:len(stack)-1]
+		verifYield("rewrite-block")
 		switch {
 		case len(curr.inlineChildren) > 0 && hasUnparsed(curr):
 			curr.inlineChildren = p.parse(root.Source, curr)
@@ -335,6 +336,7 @@ func (p *InlineParser) parse(source []byte, container *Block) []*Inline {
 			state.ignoreNextIndent = false
 			plainStart := pos
 			for state.unparsedPos < len(state.unparsed) && pos < state.spanEnd() {
+				verifYield("inline-byte")
 				switch source[pos] {
 				case '*', '_':
 					state.addToRoot(&Inline{
